@@ -20,7 +20,11 @@ the same series, database, container and distribution objects — and all clause
 against summaries of fresh objects built from the caller's arrays; the caller's arrays must be unchanged. Every case runs in a
 worker thread with a time limit: a query that does not return is a failing clause.
 
-Every generated case is a self-contained JSON dict (`kind` = w2g / fit / summary) that `replay()` re-evaluates.
+DESCRIPTIVE HALF (c17_moments): start / end / duration / dtavg / mean / std / skew / kurt / min / max / tz of the summary against
+`Qats.Moments.describe` (Float `st.moments`, exact Rat `st.momentsq`) on the processed arrays, and the clauses proved about it
+(consistency, affine equivariance, mirror) as oracles on the implementation.
+
+Every generated case is a self-contained JSON dict (`kind` = w2g / fit / summary / moments) that `replay()` re-evaluates.
 """
 import math
 import random
@@ -32,6 +36,7 @@ import numpy as np
 from .. import core
 from ..core import fbits, unfbits
 from .c05 import close
+from . import c17_moments
 
 USES_TRANSLATOR = True
 ANCHOR_PREFIX = ("w2g_", "wfw_", "wb_invcdf", "wb_pdf")
@@ -1004,10 +1009,14 @@ def run(chk):
         for f in fails:
             chk.fail(f[0], dict(inp, **f[1]), f[2], f[3])
     chk.sample(cases[-1])
+    # ---- descriptive half of the summary: Qats.Moments (st.moments / st.momentsq) vs TimeSeries.stats + its clauses as oracles ----
+    c17_moments.run_moments(chk, drv)
 
 
 def replay(rp):
     inp = rp["input"]
+    if inp.get("kind") == "moments":
+        return c17_moments.replay_moments(rp)
     kind = inp.get("kind") or ("w2g" if "shape" in inp else None)
     if kind == "w2g":
         call = lambda: [(f[0], f[1], f[2]) for f in w2g_clauses(inp)[0]]
